@@ -20,8 +20,14 @@ class Routing:
         self.members = {i['id']: i['members'] for i in items if i['kind'] == 'group'}
         self.path_group = {i['id']: i['group'] for i in items if i['kind'] == 'path'}
         self.last_of = {}
-        for g, mem in self.members.items():
-            self.last_of[mem[-1]] = g
+        self.inputs = {}
+        for i in items:
+            if i['kind'] != 'group':
+                continue
+            g, mem = i['id'], i['members']
+            self.inputs[g] = i.get('inputs') or mem[:1]
+            for o in (i.get('outputs') or mem[-1:]):
+                self.last_of[o] = g
         self.hist_len = {}
         self.blocked = {d: False for d in self.m.devs}
         self.n_script = self.n_recv = self.n_gate = 0
@@ -53,9 +59,9 @@ class Routing:
             if cur is None:
                 return f'unknown device at position {i}', stack, exits
             if kind[prev] == 'path':
-                first = self.members[self.path_group[prev]][0]
-                if cur != first:
-                    return (f'after entering path {prev} the part must be in {first} (first device of the '
+                first = self.inputs[self.path_group[prev]]
+                if cur not in first:
+                    return (f'after entering path {prev} the part must be in {first} (input device of the '
                             f'group), history says {cur}'), stack, exits
             else:
                 pos = prev
